@@ -20,6 +20,10 @@ the real lines):
   N5  x[len(x) - k] -> x[-k]  (x a plain name, k a positive integer literal; the two
       differ only when len(x) < k, where one raises and the other wraps), and
       x[1:] - x[:-1] -> np.diff(x)  (x a plain name; numpy imported by the module).
+  N6  calls of expression functions are unfolded:  a module-level function of the
+      same module whose body is a single `return E` (no nested scope in E), called
+      with call-free positional arguments, is replaced by E with the parameters
+      substituted -- `_index_of(epoch, t)` reads as `np.argwhere(epoch == t)[0, 0]`.
   N3  keyword arguments that name the next positional parameter of a function
       of the repository become positional  (done by Repo once all modules are
       parsed).
@@ -319,6 +323,7 @@ def normalize_module(tree):
         return {"inlined": 0, "tests": 0}
     literals_right(tree)
     index_forms(tree)
+    unfold_expression_functions(tree)
     n_inl = 0
     for node in ast.walk(tree):
         if isinstance(node, (ast.FunctionDef, ast.AsyncFunctionDef)):
@@ -363,4 +368,70 @@ def positional_keywords(modules):
                 kw.value.parent = call
                 call.args.append(kw.value)
                 n += 1
+    return n
+
+
+# ------------------------------------------------------------------ N6
+def _expression_functions(tree):
+    out = {}
+    for st in tree.body:
+        if isinstance(st, ast.FunctionDef) and not st.decorator_list and not st.args.vararg and not st.args.kwarg \
+                and not st.args.kwonlyargs and not st.args.posonlyargs:
+            body = [b for b in st.body if not (isinstance(b, ast.Expr) and isinstance(b.value, ast.Constant) and isinstance(b.value.value, str))]
+            if len(body) == 1 and isinstance(body[0], ast.Return) and body[0].value is not None:
+                e = body[0].value
+                if any(isinstance(x, SCOPES + (ast.Yield, ast.YieldFrom, ast.Await, ast.NamedExpr)) for x in ast.walk(e)):
+                    continue
+                if any(isinstance(x, ast.Call) and isinstance(x.func, ast.Name) and x.func.id == st.name for x in ast.walk(e)):
+                    continue
+                out[st.name] = (st, [a.arg for a in st.args.args], e)
+    return out
+
+
+def _subst(e, env):
+    import copy
+
+    class T(ast.NodeTransformer):
+        def visit_Name(self, node):
+            if isinstance(node.ctx, ast.Load) and node.id in env:
+                return copy.deepcopy(env[node.id])
+            return node
+
+    return T().visit(copy.deepcopy(e))
+
+
+def unfold_expression_functions(tree):
+    if OFF:
+        return 0
+    funcs = _expression_functions(tree)
+    if not funcs:
+        return 0
+    n = 0
+    for fn in ast.walk(tree):
+        if not isinstance(fn, (ast.FunctionDef, ast.AsyncFunctionDef)):
+            continue
+        local_stores = {x.id for x in ast.walk(fn) if isinstance(x, ast.Name) and isinstance(x.ctx, ast.Store)} | \
+                       {a.arg for a in fn.args.args + fn.args.kwonlyargs + fn.args.posonlyargs}
+        for parent in ast.walk(fn):
+            for fld, val in ast.iter_fields(parent):
+                items = val if isinstance(val, list) else [val]
+                for j, x in enumerate(items):
+                    if isinstance(x, ast.Call) and isinstance(x.func, ast.Name) and x.func.id in funcs and fn.name != x.func.id \
+                            and x.func.id not in local_stores:
+                        fdef, params, e = funcs[x.func.id]
+                        if x.keywords or len(x.args) != len(params) or any(isinstance(a, ast.Starred) for a in x.args):
+                            continue
+                        if any(_has_call(a) for a in x.args):
+                            continue
+                        free = {y.id for y in ast.walk(e) if isinstance(y, ast.Name)} - set(params)
+                        if free & local_stores:
+                            continue
+                        new = _subst(e, dict(zip(params, x.args)))
+                        for sub in ast.walk(new):
+                            ast.copy_location(sub, x)
+                        if isinstance(val, list):
+                            val[j] = new
+                        else:
+                            setattr(parent, fld, new)
+                        n += 1
     return n
